@@ -14,16 +14,16 @@ CHECKS = {
          "Small-scope exhaustive: all 7^n macroblock-kind assignments on five grids, every differential on single-macroblock pictures of each size class (vectors up to 16 samples outside every edge, all half-sample phases, fast and generic fetch path) and on the interior of 48x48 with three residual kinds, truncation after every macroblock and at every byte, prediction without reference, residual clipping - whole pictures compared with the reference decoder.",
          "Reference pictures are LCG noise so a wrong vector/phase/clamp is visible; scope (<= 9 macroblocks, sizes <= 48) stands for larger pictures.", "3.3"),
  "C10": ("idct", "complete enumeration of the prescribed finite Annex A block sets (per generator seed) and of the sparse-shortcut lattices through the hooked channel IDCT, against an f64 reference",
-         "The Annex A / IEEE 1180 procedure verbatim (10000 blocks x 3 ranges x 2 signs per generator seed; peak, per-position and overall mean-square and mean errors, zero block); all 4096 DC-only blocks; first-row/first-column blocks: every single-entry vector over -2048..2047, every two-entry vector over a boundary set, dense vectors - each against the double-precision transform (peak <= 1).",
+         "The Annex A / IEEE 1180 procedure verbatim (10000 blocks x 3 ranges x 2 signs per generator seed; peak, per-position and overall mean-square and mean errors, zero block); all 4096 DC-only blocks; first-row/first-column blocks: every single-entry vector over -2048..2047, every two-entry vector over a boundary set, dense vectors - each against the double-precision transform (peak <= 1); all sequences of 4 (thorough 5) blocks over a 9-letter block alphabet in one plane, each block compared with the same block transformed alone.",
          "Accuracy is statistical by definition: the prescribed sets are enumerated completely, further seeds are further finite sets; residual -256 is observable only as <= -255 through a u8 plane. Uses the feature-gated re-export of idct_channel and DecodedDctBlock.", "3.10"),
  "C11": ("dequant", "exhaustive enumeration of the finite quantizer x level x position domain through the hooked dequantiser, and of every codable level form end to end, against the closed-form rule",
-         "All 31 quantizers x levels +-1..1023 x 64 zig-zag positions x {with, without INTRADC} are dequantised by the real routine and compared exactly (value and position); every quantizer x every level in every codable form is also decoded end to end in intra pictures and compared with the reference decoder; all 256 INTRADC codes x 6 blocks; all 31 x 4 quantizer updates against the picture coded with the clamped quantizer.",
+         "All 31 quantizers x levels +-1..1023 x 64 zig-zag positions x {with, without INTRADC} are dequantised by the real routine and compared exactly (value and position); every quantizer x every level in every codable form is also decoded end to end in intra pictures and compared with the reference decoder; all 256 INTRADC codes x 6 blocks; all 31 x 4 quantizer updates against the picture coded with the clamped quantizer; all ordered triples of dequantiser calls over a 54-letter (quantizer, level) alphabet on one thread (purity).",
          "Direct part uses the feature-gated re-export of inverse_rle; end-to-end part observes through IDCT rounding under the rounding-boundary rule.", "3.11"),
  "C12": ("inter", "exhaustive enumeration of the finite vector domains (64x64 predictor/differential pairs per component, all 253 four-vector sums, all neighbour-kind assignments on 9 grids) through whole decoded P pictures",
          "Every (predictor, differential) pair per component and jointly, in a first-row pair and in the interior of a 3x3 grid; every possible sum of four luma vectors in three decompositions for both components; every assignment of {INTER, INTER4V, INTRA, not-coded} to the existing neighbours of every target position on nine macroblock grids for INTER and INTER4V targets; every MVD codeword. The decoded picture over a noise reference is compared with the model's prediction.",
          "Vectors are observed through pixels (noise reference); differentials for prescribed vectors are derived with the model's own predictor, so a model error would show as a false alarm on the unchanged tree, not as silence.", "3.12"),
  "C04": ("refgraph", "explicit-state breadth-first search over the real H263State to a fixpoint (closed picture alphabet) plus a depth-bounded graph with real motion, every transition compared with a two-slot reference model",
-         "The complete reachable state graph of the decoder for the alphabet {I, Pa, Pb, Da, Db} x TR {0,1,255} x 3 contents + rejected inputs + clean-up is explored (every operation from every state, de-duplicated on the decoder's whole state), in Sorenson and standard mode; each transition's Ok/Err, most-recent picture (pixels, TR, type, quantizer) and prediction source are compared with the model (last, reference). A second, depth-bounded graph uses real motion over noise references.",
+         "The complete reachable state graph of the decoder for the alphabet {I, Pa, Pb, Da, Db} x TR {0,1,255} x 3 contents + rejected inputs + clean-up is explored (every operation from every state, de-duplicated on the decoder's whole state), in Sorenson and standard mode; each transition's Ok/Err, most-recent picture (pixels, TR, type, quantizer) and prediction source are compared with the model (last, reference). A depth-bounded graph uses real motion over noise references, and a size-change graph (five shapes incl. transposes; predicted, all-skipped and empty pictures) is explored to its fixpoint.",
          "Fixpoint holds for the stated alphabet (flat contents make the image space finite); state key through the cfg-gated hook; longer TR alphabets in the thorough tier.", "3.4"),
  "C05": ("atomic", "exhaustive product of the decoder's reachable state graph (explicit-state search of C04) x failure sites x continuations, plus every byte split point of every base picture through a growable source",
          "From every reachable decoder state (fixpoint graphs, both modes) every failure site is injected; whenever the call returns Err the complete decoder state (hooked key including the carried-over options), the most recent picture and the bits re-read from the same reader must be unchanged, a repeated failure must change nothing, and every continuation must equal a twin decoder that never saw the input. Every base picture is delivered in two parts at every byte boundary to one reader: the retry after appending must equal one-piece decoding, an early-ended success must equal the early-end model.",
@@ -35,7 +35,7 @@ CHECKS = {
          "Every one of the 16,777,216 (Y,Cb,Cr) triples is pushed through yuv420_to_rgba in every SIMD lane and every remainder slot, alone and among contrasting neighbours, and compared with a 16.16 model derived from the real BT.601 constants; the full result table is checked for monotonicity. The domain is finite, so this is a complete decision for the per-pixel formula.",
          "Trusts the model's derivation of the coefficients from the BT.601 reals and the C07 layout argument (7x1 pictures reach lanes 0..3 and remainder slots 0..2).", "3.7"),
  "C09": ("deblock", "exhaustive enumeration of the kernel input domain (2^32 patterns x 12 strengths x vector/scalar slot x both passes) plus bounded-exhaustive shape sweep against a scalar Annex J model",
-         "The four-sample kernel is decided over its whole finite domain (thorough: all 2^32 x 12 in a vector lane and in the scalar remainder of both passes; quick: all 2^32 for one strength + a 32x32 (A,B) lattice x all (C,D) elsewhere) through the public deblock() on images that isolate one pass; whole-image behaviour (edge positions, pass order, untouched samples, incomplete edges) is compared with an edge-by-edge model for every width x height in a dense range x 12 strengths x 6 contents.",
+         "The four-sample kernel is decided over its whole finite domain (thorough: all 2^32 x 12 in a vector lane and in the scalar remainder of both passes; quick: all 2^32 for one strength + a 32x32 (A,B) lattice x all (C,D) elsewhere) through the public deblock() on images that isolate one pass; whole-image behaviour (edge positions, pass order, untouched samples, incomplete edges) is compared with an edge-by-edge model for every width x height in a dense range x 12 strengths x 6 contents; each pattern is also placed alone in an otherwise flat vector group (group-level shortcuts), and all sequences of three calls over 30 (shape, strength, content) letters run on one thread (purity).",
          "Trusts the i32 transcription of the Annex J formulas and Table J.2; images larger than the shape bound are represented by their residues mod 8.", "3.9"),
  "C13": ("pipeline", "bounded-exhaustive size x quantizer sweep: decode, check the plane-size relations, deblock with the tabulated strength, convert - all under catch_unwind",
          "Every picture size 1..48 (thorough 64) squared x quantizers 1..31 (fully crossed up to 20x20, pairwise beyond) as I pictures, plus a P and a D picture per size, plus long/thin extras and standard-mode sizes: the decoded planes must satisfy the documented size relations and the two post-processing stages must complete and return width x height pixels.",
@@ -47,13 +47,13 @@ CHECKS = {
          "For every source of up to 4 (thorough 5) bytes over a byte alphabet chosen for start codes/stuffing/mixed bits, delivered whole or split, the complete reachable state graph of the reader under ~670 operations per state (peeks, reads, signed reads, skips, start-code search, commits, VLC/UMV reads, successful/failed/nested transactions, unions, look-aheads, source growth) is explored; every returned value/error is compared with the model and a drain probe at every new state checks that each remaining bit is delivered exactly once in order. All 65536 two-byte sources x offsets x widths 0..33 x types cover data values.",
          "State key read through the cfg-gated hook (destructures the struct, so it is the reader's whole state); operation alphabet and source alphabet are bounds; commit inside a failing transaction and zero-width signed reads are outside the documented contract and not generated.", "3.14"),
  "C17": ("determinism", "exhaustive enumeration of all call-level interleavings (multiset permutations) of several decoder instances under an explicit scheduler, in two thread placements, against each instance's solo run",
-         "Every interleaving of the calls of every pair of six instance scripts (and of triples: all multisets in the thorough tier, a covering subset in quick) is executed on one thread and with one OS thread per instance under token passing; every instance's sequence of (Ok/Err, picture+header hash) must equal its solo sequential run. First-initialisation order of the lazily initialised constants is varied in fresh child processes. Hash-seed dependence (16 fresh instances) and free-running threads are sampled and labelled as sampling.",
+         "Every interleaving of the calls of every pair of six instance scripts (and of triples: all multisets in the thorough tier, a covering subset in quick) is executed on one thread and with one OS thread per instance under token passing; every instance's sequence of (Ok/Err, picture+header hash) must equal its solo sequential run. Every ordered pair of about 90 one-picture letters is decoded back to back by two fresh decoders on one thread and the second result compared with its solo result. First-initialisation order of the lazily initialised constants is varied in fresh child processes. Hash-seed dependence (16 fresh instances) and free-running threads are sampled and labelled as sampling.",
          "Interleavings are exhaustive at call granularity: the crates contain no lock, atomic, channel, unsafe or static mut (inventory recorded in the evidence; a note is printed if that changes), so there is no scheduling point inside a call for loom/shuttle to control.", "3.17"),
  "C16": ("deblock", "bounded-exhaustive shape sweep (all widths x heights x strengths up to a bound) + literal table comparison",
          "Every width 1..64 x height 0..64 (thorough 128) x strength 1..12 x 2 contents is run under catch_unwind with overflow checks: no panic, length preserved, equal to the model (which has no edge when fewer than 10 rows/columns). The 31 table entries are compared with the literal Table J.2.",
          "Sizes beyond the bound are not enumerated; the loop bounds depend on size only through comparisons against small constants, all of which lie inside the bound.", "3.16"),
  "C08": ("yuv", "bounded-exhaustive shape sweep (all widths x heights up to a bound x content classes incl. all row/column equality patterns) against an index-map model",
-         "All picture shapes in a dense range, each with eight content classes and every row/column-equality pattern on small shapes, compared pixel by pixel with conv(Y[x,y], Cb[x/2,y/2], Cr[x/2,y/2]); plus the empty picture.",
+         "All picture shapes in a dense range, each with eight content classes and every row/column-equality pattern on small shapes, compared pixel by pixel with conv(Y[x,y], Cb[x/2,y/2], Cr[x/2,y/2]); plus all sequences of three calls over 24 small pictures on one thread (the conversion must not depend on earlier calls), plus the empty picture.",
          "Per-pixel conversion taken from the C07 model; shapes beyond the bound are represented by their residues mod 4 / mod 2.", "3.8"),
 }
 ALL = [json.loads(l)["id"] for l in open(os.path.join(ROOT, "properties.jsonl"))]
